@@ -9,6 +9,9 @@ S->I : TLC exports every molecule of the exhaustive instance with its projection
 Histories: spec/ItpRoundTripHist.tla keeps the file system as state (fs: path -> lines); TLC exports every behaviour of gen(path, molecule) /
        read(path) operations; each is executed in ONE process in one directory (S->I) and seeded longer histories over 2-3 paths are
        recorded and validated by ItpRoundTripHistTrace.tla (I->S): a read returns Read(current content of the path), nothing else.
+       The message state of the process is state too (plog: info / warning / error messages logged so far, never reset between calls):
+       force fields whose applied blocks / links carry [ info ] / [ warning ] / [ error ] sections occur in every position of the
+       histories; every history runs in a process of its own (forked) with the logging system switched on as the command line has it.
 I->S : seeded random polymers (5-8 residues), the C02 generator's cases, the repository's own gen_params command lines (library tests,
        test inputs) and library homopolymers run through the same command line; per run one record (molecule in memory when the
        writer is called, written text as abstract lines, both read-backs, requested graph, warnings) validated by
@@ -415,73 +418,134 @@ def binding_demo(ck, recs, known):
 
 # ------------------------------------------------------------------ in-process histories (the file system is state)
 
+def _in_own_process(func, *args):
+    """func(*args) in a forked child: a history is what ONE process does from its start (the model's process starts with an empty file
+    system, a fresh force field and NO message logged); whatever the code under test keeps for the life of a process starts fresh and
+    ends with the history.  The result comes back as JSON through a pipe."""
+    r, w = os.pipe()
+    pid = os.fork()
+    if pid == 0:
+        code = 1
+        try:
+            os.close(r)
+            try:
+                payload = json.dumps({"ok": func(*args)})
+            except BaseException as exc:      # reported by the parent as a failure of the machinery
+                import traceback
+                payload = json.dumps({"error": "%s: %s\n%s" % (type(exc).__name__, exc, traceback.format_exc()[-1500:])})
+            with os.fdopen(w, "w") as f:
+                f.write(payload)
+            code = 0
+        finally:
+            os._exit(code)
+    os.close(w)
+    with os.fdopen(r) as f:
+        data = f.read()
+    os.waitpid(pid, 0)
+    if not data:
+        raise c.MachineryError("the process of a history ended without a result")
+    doc = json.loads(data)
+    if "error" in doc:
+        raise c.MachineryError("driver failed inside the process of a history: %s" % doc["error"])
+    return doc["ok"]
+
+
+def _msg_of(op):
+    return {"lv": op["lv"], "on": op["on"]} if op.get("lv", "none") != "none" else None
+
+
+def _said(op, rec):
+    """what the force field of the run said and what the process had logged before, for the report"""
+    m = _msg_of(op)
+    seen = rec.get("seen") or {}
+    return "the force field of this run carries %s; before this run the process had logged %d info / %d warning / %d error messages" % (
+        ("an [ %s ] message on %s" % (m["lv"], "its residue blocks" if m["on"] == "block" else "an applied link")) if m else "no message section",
+        seen.get("info", 0), seen.get("warning", 0), seen.get("error", 0))
+
+
 def _hist_chunk(arg):
     """S->I: histories exported by ItpRoundTripHist (gen = write molecule m to path p with the real command line, read = read a topology
     that includes p); every history runs in this one process, in one directory; a read must return the molecule TLC says the path holds"""
     path, = arg
     doc = json.loads(Path(path).read_text())
     mols = doc["mols"]
-    res = []
+    return [tuple(_in_own_process(_hist_one, mols, hid, hist)) for hid, hist in doc["hists"]]
+
+
+def _hist_one(mols, hid, hist):
+    """one exported history, executed from the start of a process; -> (hid, None | (operation, what), coverage counters)"""
     import vermouth.forcefield
     from polyply.src.load_library import load_ff_library
-    for hid, hist in doc["hists"]:
-        bad = None
-        shared = None        # the one force field of the process that from_itp reads into (op "readff")
-        with tempfile.TemporaryDirectory(prefix="verif_c11h_", dir="/var/tmp") as wd:
-            for k, op in enumerate(hist):
-                if op["op"] == "init":
-                    shared = "lib" if op["path"] == "lib" else vermouth.forcefield.ForceField("in use")
-                    continue
-                cs = mols[op["m"] - 1]
-                itp = Path(wd) / ("%s.itp" % op["path"])
-                if op["op"] == "gen":
-                    sub = Path(wd) / ("in_%d" % k)
-                    sub.mkdir()
-                    ff, seq = iu.render_case(cs["mol"], (hid + k) % 2)
-                    (sub / "in.ff").write_text(ff)
-                    (sub / "seq.json").write_text(seq)
-                    rec = iu.run_command(["polyply", "gen_params", "-f", str(sub / "in.ff"), "-seqf", str(sub / "seq.json"), "-name", cs["mol"]["name"],
-                                          "-o", itp.name], wd, keep_existing=True)
-                    if rec["exception"] or not rec["written"]:
-                        bad = (k, "gen_params did not write %s (%s)" % (itp.name, rec["exception"] or "the file at the path was not replaced"))
-                        break
-                    if shared == "lib":
-                        # the force field the molecule was generated from: it holds the residue block the molecule is named after
-                        shared = load_ff_library("in use", None, [sub / "in.ff"])
-                elif op["op"] == "readff":
-                    rb = iu.read_into(shared, itp, cs["mol"]["name"])
-                    if rb.get("read_error"):
-                        bad = (k, "the file cannot be read: %s" % rb["read_error"])
-                        break
-                    d = _mol_diff(cs["exp"], rb["read"])
-                    if not d and not cs["missing"] and _graph(rb["rg"]) != _graph(cs["rg"]):
-                        d = "the residue graph recovered from the file is %s, requested %s" % (_graph(rb["rg"]), _graph(cs["rg"]))
+    cov = {"gens": 0, "gens_with_message": 0, "gens_after_error_logged": 0, "gens_after_warning_logged": 0, "error_records": 0}
+    bad = None
+    shared = None        # the one force field of the process that from_itp reads into (op "readff")
+    with tempfile.TemporaryDirectory(prefix="verif_c11h_", dir="/var/tmp") as wd:
+        for k, op in enumerate(hist):
+            if op["op"] == "init":
+                shared = "lib" if op["path"] == "lib" else vermouth.forcefield.ForceField("in use")
+                continue
+            cs = mols[op["m"] - 1]
+            itp = Path(wd) / ("%s.itp" % op["path"])
+            if op["op"] == "gen":
+                sub = Path(wd) / ("in_%d" % k)
+                sub.mkdir()
+                ff, seq = iu.render_case(cs["mol"], (hid + k) % 2, msg=_msg_of(op))
+                (sub / "in.ff").write_text(ff)
+                (sub / "seq.json").write_text(seq)
+                rec = iu.run_command(["polyply", "gen_params", "-f", str(sub / "in.ff"), "-seqf", str(sub / "seq.json"), "-name", cs["mol"]["name"],
+                                      "-o", itp.name], wd, keep_existing=True, live_log=True)
+                cov["gens"] += 1
+                cov["gens_with_message"] += 1 if _msg_of(op) else 0
+                cov["gens_after_error_logged"] += 1 if rec["seen"]["error"] else 0
+                cov["gens_after_warning_logged"] += 1 if rec["seen"]["warning"] else 0
+                cov["error_records"] += rec["logged"]["error"]
+                if not rec["accepted"]:
+                    bad = (k, "machinery: the rendered input did not pass mapping and link application: %s" % rec["exception"])
+                    break
+                if rec["exception"] or not rec["written"]:
+                    bad = (k, "mapping and link application passed but gen_params did not write %s (%s); %s" % (
+                        itp.name, rec["exception"] or "the file at the path was not replaced", _said(op, rec)))
+                    break
+                want = (_msg_of(op) or {}).get("lv")
+                if want and not rec["msgs"][want]:
+                    bad = (k, "machinery: the rendered [ %s ] section did not reach the built molecule" % want)
+                    break
+                if shared == "lib":
+                    # the force field the molecule was generated from: it holds the residue block the molecule is named after
+                    shared = load_ff_library("in use", None, [sub / "in.ff"])
+            elif op["op"] == "readff":
+                rb = iu.read_into(shared, itp, cs["mol"]["name"])
+                if rb.get("read_error"):
+                    bad = (k, "the file cannot be read: %s" % rb["read_error"])
+                    break
+                d = _mol_diff(cs["exp"], rb["read"])
+                if not d and not cs["missing"] and _graph(rb["rg"]) != _graph(cs["rg"]):
+                    d = "the residue graph recovered from the file is %s, requested %s" % (_graph(rb["rg"]), _graph(cs["rg"]))
+                if d:
+                    bad = (k, "%s was read with MetaMolecule.from_itp into a force field in use (it already held a block named %s) after molecule %d had "
+                              "been written there, but the reader returned something else: %s" % (itp.name, cs["mol"]["name"], op["m"], d))
+                    break
+            else:
+                rb = iu.read_back(itp, cs["mol"]["name"], wd)
+                if rb.get("read_error"):
+                    bad = (k, "the file cannot be read back: %s" % rb["read_error"])
+                    break
+                d = None
+                for which in ("read", "read2"):
+                    d = _mol_diff(cs["exp"], rb[which])
                     if d:
-                        bad = (k, "%s was read with MetaMolecule.from_itp into a force field in use (it already held a block named %s) after molecule %d had "
-                                  "been written there, but the reader returned something else: %s" % (itp.name, cs["mol"]["name"], op["m"], d))
+                        d = "%s: %s" % ("Topology.from_gmx_topfile" if which == "read" else "MetaMolecule.from_itp", d)
                         break
-                else:
-                    rb = iu.read_back(itp, cs["mol"]["name"], wd)
-                    if rb.get("read_error"):
-                        bad = (k, "the file cannot be read back: %s" % rb["read_error"])
-                        break
-                    d = None
-                    for which in ("read", "read2"):
-                        d = _mol_diff(cs["exp"], rb[which])
-                        if d:
-                            d = "%s: %s" % ("Topology.from_gmx_topfile" if which == "read" else "MetaMolecule.from_itp", d)
+                if not d and not cs["missing"]:
+                    for which in ("rg", "rg2"):
+                        if _graph(rb[which]) != _graph(cs["rg"]):
+                            d = "the residue graph recovered from the file is %s, requested %s" % (_graph(rb[which]), _graph(cs["rg"]))
                             break
-                    if not d and not cs["missing"]:
-                        for which in ("rg", "rg2"):
-                            if _graph(rb[which]) != _graph(cs["rg"]):
-                                d = "the residue graph recovered from the file is %s, requested %s" % (_graph(rb[which]), _graph(cs["rg"]))
-                                break
-                    if d:
-                        bad = (k, "the topology including %s was read after molecule %d had been written there, but the reader returned something else: %s" % (
-                            itp.name, op["m"], d))
-                        break
-        res.append((hid, bad))
-    return res
+                if d:
+                    bad = (k, "the topology including %s was read after molecule %d had been written there, but the reader returned something else: %s" % (
+                        itp.name, op["m"], d))
+                    break
+    return hid, bad, cov
 
 
 def _reuses(hist):
@@ -508,10 +572,40 @@ def _rewrites(hist):
     return False
 
 
-def history_replay(ck, res, resff, tier, rng):
+def _msg_class(hist):
+    """(position among the operations, level, carrier) of the runs of a history whose force field carries a message section"""
+    return tuple((k, op["lv"], op["on"]) for k, op in enumerate(hist) if op["op"] == "gen" and op.get("lv", "none") != "none")
+
+
+def _select_msg(hmsg, rng, n):
+    """histories of the message instance, stratified: every (position, level, carrier) of the message-carrying run in turn; within a
+    class histories that run gen_params again afterwards first (the process state has to survive into a later call to matter)"""
+    strata = {}
+    for h in hmsg:
+        strata.setdefault(_msg_class(h), []).append(h)
+    for key in strata:
+        rng.shuffle(strata[key])
+        if key:
+            strata[key].sort(key=lambda h: -sum(1 for op in h[key[0][0] + 1:] if op["op"] == "gen"))
+    pick, keys = [], sorted(strata)
+    while len(pick) < n and keys:
+        for key in list(keys):
+            if strata[key]:
+                pick.append(strata[key].pop(0))
+            else:
+                keys.remove(key)
+            if len(pick) >= n:
+                break
+    return pick, len(strata)
+
+
+def history_replay(ck, res, resff, resmsg, tier, rng):
     mols = res.tagged("HMOLS")
     hists = res.tagged("HIST")
     hff = resff.tagged("HIST")
+    hmsg = resmsg.tagged("HIST")
+    if len(hmsg) < 500:
+        raise c.MachineryError("ItpRoundTripHist (message instance) exported %d histories" % len(hmsg))
     if not mols or len(hists) < 500:
         raise c.MachineryError("ItpRoundTripHist exported %d molecule tables / %d histories" % (len(mols), len(hists)))
     mols = mols[0]
@@ -529,12 +623,22 @@ def history_replay(ck, res, resff, tier, rng):
     ffrest = [h for h in hff if not _reuses(h)]
     ck.extra["ff_histories_exported"] = len(hff)
     ck.extra["ff_histories_reading_into_a_force_field_that_holds_another_block_of_the_name"] = len(reuse)
-    nrew, nrest, nreuse, nffrest = (350, 150, 300, 100) if tier == "quick" else (2000, 500, 1500, 300)
+    keymsg = {json.dumps(h, sort_keys=True): h for h in hmsg}
+    hmsg = [keymsg[k] for k in sorted(keymsg)]
+    ck.extra["message_histories_exported"] = len(hmsg)
+    nrew, nrest, nreuse, nffrest, nmsg = (350, 150, 300, 100, 320) if tier == "quick" else (2000, 500, 1500, 300, len(hmsg))
     rest = rng.sample(rest, min(len(rest), nrest))
     rew = rng.sample(rew, min(len(rew), nrew))
     reuse = rng.sample(reuse, min(len(reuse), nreuse))
     ffrest = rng.sample(ffrest, min(len(ffrest), nffrest))
-    todo = list(enumerate(rew + rest + reuse + ffrest))
+    msgsel, nclasses = _select_msg(hmsg, rng, nmsg)
+    ck.extra["message_histories_replayed"] = len(msgsel)
+    ck.extra["message_history_classes (position, level, carrier)"] = nclasses
+    want = {(k, lv, on) for k in (1, 2, 3) for lv in iu.LEVELS for on in ("block", "link")}
+    got = {cl[0] for cl in map(_msg_class, msgsel) if cl}
+    if want - got and not ck.violations:
+        raise c.MachineryError("the replayed message histories do not cover %s" % sorted(want - got))
+    todo = list(enumerate(rew + rest + reuse + ffrest + msgsel))
     if (len(rew) < 50 or len(reuse) < 50) and not ck.violations:
         raise c.MachineryError("too few histories read a path again after it was rewritten (%d) / read into a force field in use (%d)" % (len(rew), len(reuse)))
     wdir = c.workdir(PROP, "hist_export")
@@ -544,28 +648,55 @@ def history_replay(ck, res, resff, tier, rng):
         f.write_text(json.dumps({"mols": mols, "hists": ch}))
         parts.append((str(f),))
     allh = dict(todo)
+    cov = {}
     for part in c.pmap(_hist_chunk, parts):
-        for hid, bad in part:
+        for hid, bad, cv in part:
             ck.replayed += 1
             h = allh[hid]
             ck.count("hist:" + json.dumps(h, sort_keys=True))
+            for key, v in cv.items():
+                cov[key] = cov.get(key, 0) + v
             for op in h:
                 ck.actions["history:" + op["op"]] = ck.actions.get("history:" + op["op"], 0) + 1
+                if op["op"] == "gen" and op.get("lv", "none") != "none":
+                    ck.actions["history:gen with [ %s ] on %s" % (op["lv"], op["on"])] = ck.actions.get("history:gen with [ %s ] on %s" % (op["lv"], op["on"]), 0) + 1
             if bad:
                 k, what = bad
+                if what.startswith("machinery:"):
+                    raise c.MachineryError("history %s, operation %d: %s" % (json.dumps(h), k, what))
                 ck.violation({"kind": "history", "mols": mols, "history": h, "step": k},
-                             what="in-process history %s: operation %d: %s" % (" ".join("%s(%s,%d)" % (o["op"], o["path"], o["m"]) for o in h), k, what))
+                             what="in-process history %s: operation %d: %s" % (" ".join(
+                                 "%s(%s,%d%s)" % (o["op"], o["path"], o["m"], (",[ %s ] on %s" % (o["lv"], o["on"])) if o.get("lv", "none") != "none" else "") for o in h), k, what))
     ck.extra["histories_replayed"] = len(todo)
-    ck.sample({"history (S->I)": rew[0], "history with a long-lived force field (S->I)": reuse[0], "molecules by index": [{"atoms": len(m["mol"]["atoms"]), "residues": len(m["mol"]["rnodes"]),
+    ck.extra["history_replay_process_state"] = cov
+    # the binding is vacuous unless the messages really reach the logging system of the process and runs follow them in the same process
+    if (cov.get("error_records", 0) < 20 or cov.get("gens_after_error_logged", 0) < 20 or cov.get("gens_after_warning_logged", 0) < 20) and not ck.violations:
+        raise c.MachineryError("the replayed histories hardly ever run gen_params in a process that has logged an error / a warning before: %s" % cov)
+    ck.sample({"history (S->I)": rew[0], "history with a long-lived force field (S->I)": reuse[0],
+               "history with a message-carrying force field (S->I)": next((h for h in msgsel if _msg_class(h) and _msg_class(h)[0][1] == "error"), msgsel[0]), "molecules by index": [{"atoms": len(m["mol"]["atoms"]), "residues": len(m["mol"]["rnodes"]),
                                                                    "interactions": [(x["sec"], x["gk"]) for x in m["mol"]["inter"]]} for m in mols]})
 
 
-LIBSEQ = [("martini3", "PEO"), ("martini3", "PS"), ("martini3", "PE"), ("martini2", "PS"), ("ibi_cgm3", "PTMA"), ("martini3", "P3HT")]
+# library, residue block, an atom of the block (for a message-only link given next to the library)
+LIBSEQ = [("martini3", "PEO", "EC"), ("martini3", "PS", "B"), ("martini3", "PE", "C1"), ("martini2", "PS", "B"), ("ibi_cgm3", "PTMA", "VNL"),
+          ("martini3", "P3HT", "S1")]
 
 
 def _hist_trace_one(seed):
-    """I->S: one seeded history in this one process: 10-14 operations on 2-3 output paths, molecules = random polymers / library homopolymers
-    of varying length, all written as moleculetype 'poly'"""
+    return _in_own_process(_hist_trace_body, seed)
+
+
+def _tapped(func, *args):
+    """a read operation with the logging system on: (result, records by level before, records by level of the operation)"""
+    with iu.live_logging() as log:
+        res = func(*args)
+    return res, log.before, log.logged
+
+
+def _hist_trace_body(seed):
+    """I->S: one seeded history in one process of its own: 10-14 operations on 2-3 output paths, molecules = random polymers / library
+    homopolymers of varying length, all written as moleculetype 'poly'; the force fields of some runs carry [ info ] / [ warning ] /
+    [ error ] message sections on blocks and links (a message-only link next to a library)"""
     import vermouth.forcefield
     from polyply.src.load_library import load_ff_library
     rng = random.Random(seed)
@@ -573,8 +704,13 @@ def _hist_trace_one(seed):
     events, have = [], set()
     # every third history: homopolymers named after their residue (-name PEO -seq PEO:n), read into the loaded library itself
     named = seed % 3 == 0
+    # message sections: a third of the histories has none at all, the others in any run with probability pmsg; the first
+    # error-level message of a history is aimed at its run number `first_error` (so that every position is taken over the seeds)
+    pmsg = 0.0 if seed % 3 == 1 else 0.45
+    first_error = (seed // 3) % 5 if pmsg else None
+    ngen = 0
     if named:
-        lib, blk = rng.choice(LIBSEQ)
+        lib, blk, atom = rng.choice(LIBSEQ)
         name, shared = blk, load_ff_library("in use", [lib], [])
     else:
         name, shared = "poly", vermouth.forcefield.ForceField("in use")
@@ -583,36 +719,52 @@ def _hist_trace_one(seed):
             p = rng.choice(paths)
             itp = Path(wd) / ("%s.itp" % p)
             if p not in have or rng.random() < 0.4:
-                if named:
-                    argv = ["polyply", "gen_params", "-lib", lib, "-seq", "%s:%d" % (blk, rng.randint(2, 6)), "-name", name, "-o", itp.name]
-                elif rng.random() < 0.7:
-                    sub = Path(wd) / ("in_%d" % k)
-                    sub.mkdir()
+                level = None
+                if ngen == first_error:
+                    level = "error"
+                elif rng.random() < pmsg:
+                    level = rng.choice(iu.LEVELS)
+                ngen += 1
+                sub = Path(wd) / ("in_%d" % k)
+                sub.mkdir()
+                said = None
+                if named or rng.random() >= 0.7:
+                    lib2, blk2, atom2 = (lib, blk, atom) if named else rng.choice(LIBSEQ)
+                    argv = ["polyply", "gen_params", "-lib", lib2]
+                    if level:
+                        (sub / "msg.ff").write_text(iu.message_only_link(blk2, atom2, level))
+                        argv += ["-f", str(sub / "msg.ff")]
+                        said = {"level": level, "on": "message-only link"}
+                    argv += ["-seq", "%s:%d" % (blk2, rng.randint(2, 6)), "-name", name, "-o", itp.name]
+                else:
                     ff, seq, _ = iu.random_polymer(rng, exotic=False)
+                    if level:
+                        ff, said = iu.add_messages(ff, rng, level)
                     (sub / "in.ff").write_text(ff)
                     (sub / "seq.json").write_text(seq)
                     argv = ["polyply", "gen_params", "-f", str(sub / "in.ff"), "-seqf", str(sub / "seq.json"), "-name", name, "-o", itp.name]
-                else:
-                    lib2, blk2 = rng.choice(LIBSEQ)
-                    argv = ["polyply", "gen_params", "-lib", lib2, "-seq", "%s:%d" % (blk2, rng.randint(2, 6)), "-name", name, "-o", itp.name]
-                rec = iu.run_command(argv, wd, keep_existing=True)
+                rec = iu.run_command(argv, wd, keep_existing=True, live_log=True)
                 if not rec["accepted"]:
+                    events.append({"op": "other", "path": p, "seen": rec["seen"], "logged": rec["logged"], "exception": rec["exception"]})
                     continue
                 built = rec["built"] if isinstance(rec["built"], dict) and "error" not in rec["built"] else {"name": "", "nrexcl": "", "atoms": [], "inter": []}
                 events.append({"op": "gen", "path": p, "written": bool(rec["written"] and not rec["exception"]), "built": built,
-                               "lines": iu.tokenise(rec["text"]), "argv": argv[:2] + [a for a in argv[2:] if not a.startswith("/")], "exception": rec["exception"]})
+                               "lines": iu.tokenise(rec["text"]), "argv": argv[:2] + [a for a in argv[2:] if not a.startswith("/")], "exception": rec["exception"],
+                               "msgs": rec["msgs"], "seen": rec["seen"], "logged": rec["logged"], "force field says": json.dumps(said) if said else ""})
                 if rec["written"]:
                     have.add(p)
             elif rng.random() < 0.5:
-                rb = iu.read_back(itp, name, wd)
+                rb, seen, logged = _tapped(iu.read_back, itp, name, wd)
                 empty = {"name": "", "nrexcl": "", "atoms": [], "inter": []}
                 events.append({"op": "read", "path": p, "now": iu.tokenise(itp.read_text()), "readok": "read_error" not in rb,
-                               "read": rb.get("read", empty), "read2": rb.get("read2", empty), "read_error": rb.get("read_error", "")})
+                               "read": rb.get("read", empty), "read2": rb.get("read2", empty), "read_error": rb.get("read_error", ""),
+                               "seen": seen, "logged": logged})
             else:
-                rb = iu.read_into(shared, itp, name)
+                rb, seen, logged = _tapped(iu.read_into, shared, itp, name)
                 empty = {"name": "", "nrexcl": "", "atoms": [], "inter": []}
                 events.append({"op": "readff", "path": p, "now": iu.tokenise(itp.read_text()), "readok": "read_error" not in rb,
-                               "read": rb.get("read", empty), "read2": rb.get("read", empty), "read_error": rb.get("read_error", "")})
+                               "read": rb.get("read", empty), "read2": rb.get("read", empty), "read_error": rb.get("read_error", ""),
+                               "seen": seen, "logged": logged})
     return seed, events
 
 
@@ -654,10 +806,29 @@ def history_traces(ck, tier, sd):
     seeds = [s for s, ev in outs if ev]
     rejected = validate_histories(ck, traces, "hist_traces")
     rereads = ffreuse = 0
+    msgcov = {"gens": 0, "gens carrying an info message": 0, "gens carrying a warning message": 0, "gens carrying an error message": 0,
+              "gens after the process had logged an error": 0, "gens after the process had logged a warning": 0,
+              "gens over an existing file after the process had logged an error": 0, "runs refused (other)": 0}
+    first_error_at = {}
     for i, tr in enumerate(traces):
         gens, readat = {}, {}
         held = "library" if seeds[i] % 3 == 0 else None
+        ng = 0
         for e in tr:
+            if e["op"] == "other":
+                msgcov["runs refused (other)"] += 1
+            if e["op"] == "gen":
+                msgcov["gens"] += 1
+                for lv, label in (("info", "gens carrying an info message"), ("warning", "gens carrying a warning message"), ("error", "gens carrying an error message")):
+                    msgcov[label] += 1 if e["msgs"][lv] else 0
+                if e["seen"]["error"]:
+                    msgcov["gens after the process had logged an error"] += 1
+                    if e["path"] in gens:
+                        msgcov["gens over an existing file after the process had logged an error"] += 1
+                elif e["logged"]["error"]:
+                    first_error_at[ng] = first_error_at.get(ng, 0) + 1
+                msgcov["gens after the process had logged a warning"] += 1 if e["seen"]["warning"] else 0
+                ng += 1
             if e["op"] == "readff":
                 now = json.dumps(e["now"])
                 if held is not None and held != now:
@@ -675,7 +846,9 @@ def history_traces(ck, tier, sd):
             ck.violation({"kind": "history trace", "seed": seeds[i], "trace": tr[:k + 1], "matched": k},
                          what="in-process history (seed %d) rejected at operation %d (%s %s): %s" % (
                              seeds[i], k + 1, e.get("op"), e.get("path"),
-                             (e.get("exception") or "the file was not (re)written, or the text does not read as the molecule built") if e.get("op") == "gen"
+                             ((e.get("exception") or "the file was not (re)written, or the text does not read as the molecule built")
+                              + "; the applied blocks / links carried %s messages (info/warning/error); before this run the process had logged %s" % (
+                                  [e["msgs"][lv] for lv in iu.LEVELS], [e["seen"][lv] for lv in iu.LEVELS])) if e.get("op") == "gen"
                              else (e.get("read_error") or "the reader did not return what the file at the path holds at that moment")))
         else:
             ck.traces += 1
@@ -687,6 +860,12 @@ def history_traces(ck, tier, sd):
     if (rereads < 20 or ffreuse < 20) and not ck.violations:
         raise c.MachineryError("the recorded histories hardly ever read a path again after rewriting it (%d) / read into a force field that holds "
                                "another block of the name (%d)" % (rereads, ffreuse))
+    ck.extra["history_trace_message_state"] = msgcov
+    ck.extra["history_trace_first_error_message_at_run_number"] = {str(k): first_error_at[k] for k in sorted(first_error_at)}
+    if (min(msgcov["gens carrying an info message"], msgcov["gens carrying a warning message"], msgcov["gens carrying an error message"]) < 15
+            or msgcov["gens after the process had logged an error"] < 40 or msgcov["gens over an existing file after the process had logged an error"] < 15
+            or len([k for k in range(4) if first_error_at.get(k)]) < 4) and not ck.violations:
+        raise c.MachineryError("the recorded histories hardly exercise the message state of the process: %s, first error at run number %s" % (msgcov, first_error_at))
     # binding demonstration: a read that returns what the path held BEFORE the last write must be rejected
     demo = None
     for i, tr in enumerate(traces):
@@ -706,12 +885,33 @@ def history_traces(ck, tier, sd):
     if demo is None:
         ck.require(False, "history binding demonstration: no trace reads a path twice with different content")
         return
-    rej = validate_histories(ck, [demo], "hist_binding", count=False)
-    if rej != {0: want}:
-        raise c.MachineryError("history binding demonstration failed: a stale read gave %s, expected rejection at event %d" % (rej, want))
-    ck.extra["history_binding_demo"] = "a read event replaced by the (stale) result of the previous read of the same path was rejected at that event"
-    ck.sample({"history trace (I->S)": [{"op": e["op"], "path": e["path"], "atoms": len((e.get("built") or e.get("read"))["atoms"]),
-                                          "command": e.get("argv")} for e in traces[0]]})
+    # ... and a run whose output was withheld because the process had logged an error: the path keeps what it held, no new file
+    demo2 = None
+    for i, tr in enumerate(traces):
+        if i in rejected:
+            continue
+        held = {}
+        for k, e in enumerate(tr):
+            if e["op"] == "gen":
+                if e["seen"]["error"] and not e["logged"]["error"] and e["path"] in held:
+                    demo2 = json.loads(json.dumps(tr))
+                    demo2[k]["written"], demo2[k]["lines"] = False, held[e["path"]]
+                    want2 = k
+                    break
+                held[e["path"]] = e["lines"]
+        if demo2:
+            break
+    if demo2 is None:
+        ck.require(False, "history binding demonstration: no trace rewrites a path in a clean run after an error-level message was logged")
+        return
+    rej = validate_histories(ck, [demo, demo2], "hist_binding", count=False)
+    if rej != {0: want, 1: want2}:
+        raise c.MachineryError("history binding demonstration failed: a stale read / a withheld output gave %s, expected rejection at events %s" % (rej, {0: want, 1: want2}))
+    ck.extra["history_binding_demo"] = ("a read event replaced by the (stale) result of the previous read of the same path was rejected at that event; a clean run after "
+                                        "an error-level message of an earlier run, altered to 'not written, the path keeps its old content', was rejected at that event")
+    ck.sample({"history trace (I->S)": [{"op": e["op"], "path": e["path"], "atoms": len((e.get("built") or e.get("read") or {"atoms": []})["atoms"]),
+                                          "command": e.get("argv"), "messages carried": e.get("msgs"), "logged before": e.get("seen")} for e in next(
+                                              (t for t in traces if any(e["op"] == "gen" and e["msgs"]["error"] for e in t)), traces[0])]})
 
 
 # ------------------------------------------------------------------ entry points
@@ -726,6 +926,8 @@ def model_jobs(tier):
     jobs.append(("hist:dev:readerCaches", "ItpRoundTripHist", "Itp_hist_dev_readerCaches.cfg", {"workers": 1, "check": False}))
     jobs.append(("hist:dev:readerReusesBlock", "ItpRoundTripHist", "Itp_hist_dev_readerReusesBlock.cfg", {"workers": 1, "check": False}))
     jobs.append(("hist:dev:writerAppends", "ItpRoundTripHist", "Itp_hist_dev_writerAppends.cfg", {"workers": 1, "check": False}))
+    jobs.append(("hist:dev:errGate", "ItpRoundTripHist", "Itp_hist_dev_errGate.cfg", {"workers": 1, "check": False}))
+    jobs.append(("hist:dev:errGateRead", "ItpRoundTripHist", "Itp_hist_dev_errGateRead.cfg", {"workers": 1, "check": False}))
     jobs.append(("find:mass", "Itp_MassOnly", "Itp_find_massonly.cfg", {"workers": 1, "check": False}))
     jobs.append(("find:edge", "Itp_Unbacked", "Itp_find_unbacked.cfg", {"workers": 1, "check": False}))
     jobs.append(("find:arz", "Itp_Arz", "Itp_find_arz.cfg", {"workers": 1, "check": False}))
@@ -765,11 +967,14 @@ def run(tier):
     th = threading.Thread(target=background)
     th.start()
     try:
-        ex, exf, exh, exhf = c.tlc_many([("Itp_Quick" if tier == "quick" else "Itp_Full", "Itp_export.cfg", {"workers": 3, "timeout": 3000}),
-                                   ("Itp_Find", "Itp_export_find.cfg", {"workers": 1}),
-                                   ("ItpRoundTripHist", "Itp_hist_deep.cfg", {"workers": 3, "timeout": 3000}),
-                                   ("ItpRoundTripHist", "Itp_hist_ff.cfg", {"workers": 2, "timeout": 3000})],
-                                  workers_each=None)
+        ex, exf, exh, exhf, exhm = c.tlc_many([("Itp_Quick" if tier == "quick" else "Itp_Full", "Itp_export.cfg", {"workers": 3, "timeout": 3000}),
+                                         ("Itp_Find", "Itp_export_find.cfg", {"workers": 1}),
+                                         ("ItpRoundTripHist", "Itp_hist_deep.cfg", {"workers": 3, "timeout": 3000}),
+                                         ("ItpRoundTripHist", "Itp_hist_ff.cfg", {"workers": 2, "timeout": 3000}),
+                                         ("ItpRoundTripHist", "Itp_hist_msg.cfg", {"workers": 2, "timeout": 3000})],
+                                        workers_each=None)
+        ck.model_must_hold(exhm, "OutputIgnoresLog / GenWritesWhateverLogged / LogSurvivesCalls / OnlyRunsLog / ReadIsCurrent on all histories in which a run's force field "
+                                 "carries an [ info ] / [ warning ] / [ error ] message on its blocks or on an applied link (process message state plog)")
         ck.model_must_hold(exhf, "ReadIsCurrent with reads through from_itp into one long-lived force field (fresh, or holding the generating library's block)")
         ck.model_must_hold(exh, "ReadIsCurrent / FsHoldsWrite / OnlyWritesChangeFiles on all histories of gen/read operations over two paths")
         ck.model_must_hold(ex, "RoundTrip / ResGraphLaw for the declarative Write and Read on every molecule of the instance")
@@ -841,8 +1046,8 @@ def run(tier):
         ck.require(len(pick) >= 20 and nov <= len(pick) // 5, "gen_coords subset too small or too many runs without verdict (%d of %d)" % (nov, len(pick)))
         # ---- 3b. in-process histories
         ck.stage("S->I: in-process histories (write to the same paths again and again, read in between)")
-        history_replay(ck, exh, exhf, tier, rng)
-        exh.out = exhf.out = ""
+        history_replay(ck, exh, exhf, exhm, tier, rng)
+        exh.out = exhf.out = exhm.out = ""
         ck.stage("I->S: seeded in-process histories validated by ItpRoundTripHistTrace")
         history_traces(ck, tier, sd)
         # ---- 4. I->S
@@ -870,6 +1075,8 @@ def run(tier):
     ck.model_must_refute(results["hist:dev:readerCaches"], "ReadIsCurrent", "the reader caches included files by path for the life of the process")
     ck.model_must_refute(results["hist:dev:readerReusesBlock"], "ReadIsCurrent", "from_itp does not parse the file when the force field already has a block of that name")
     ck.model_must_refute(results["hist:dev:writerAppends"], "ReadIsCurrent", "the writer appends to an existing output file")
+    ck.model_must_refute(results["hist:dev:errGate"], "OutputIgnoresLog", "the output is withheld when the process has logged an error-level message (in this or an earlier call)")
+    ck.model_must_refute(results["hist:dev:errGateRead"], "ReadIsCurrent", "the same deviation seen by a reader: the path still holds what an earlier run wrote")
     ck.model_must_refute(results["find:mass"], "LawsAtStart", "an atom with a mass but no charge (finding %s)" % SIG_MASS)
     ck.model_must_refute(results["find:edge"], "LawsAtStart", "a linked residue pair without bond or constraint (finding %s)" % SIG_EDGE)
     ck.model_must_refute(results["find:arz"], "LawsAtStart", "angle_restraints_z listed with the higher atom first (finding %s)" % SIG_ARZ)
@@ -891,7 +1098,7 @@ def replay(path):
     if case["kind"] == "history":
         f = Path(tempfile.mkdtemp(prefix="verif_c11h_", dir="/var/tmp")) / "h.json"
         f.write_text(json.dumps({"mols": case["mols"], "hists": [(0, case["history"])]}))
-        (hid, bad), = _hist_chunk((str(f),))
+        (hid, bad, _), = _hist_chunk((str(f),))
         print("replayed:", "still failing at operation %d: %s" % (bad[0] + 1, bad[1]) if bad else "no violation")
         return 1 if bad else 0
     if case["kind"] == "history trace":
